@@ -9,6 +9,37 @@ Import ListNotations.
 
 Definition zlevel (c : Z) : nat := if (c <=? 0)%Z then 0%nat else if (c =? 1)%Z then 1%nat else 2%nat.
 
+(* ---- what the helpers compute, as pure functions of the dictionaries they are handed (any element and value types) ---- *)
+Section Layout.
+Context {E T : Type}.
+Variable ename : E -> string.
+Definition kv_in (x : list (E * list (string * list T))) : list (string * list T) := flat_map snd x.
+Definition lay0_in (x : list (E * list (string * list T))) : list (string * list T) :=
+  flat_map (fun it => map (fun kv => ((fst kv ++ "_" ++ ename (fst it))%string, snd kv)) (snd it)) x.
+Definition lay_inputs (x u d : list (E * list (string * list T))) (c : Z) : list (string * list T) :=
+  match zlevel c with
+  | O => lay0_in x ++ lay0_in u ++ lay0_in d
+  | 1%nat => regroup (kv_in x) ++ regroup (kv_in u) ++ regroup (kv_in d)
+  | _ => [("x"%string, List.concat (map snd (regroup (kv_in x)))); ("u"%string, List.concat (map snd (regroup (kv_in u))));
+          ("d"%string, List.concat (map snd (regroup (kv_in d))))]
+  end.
+Definition lay_params (ps : list (string * list T)) (c : Z) : list (string * list T) :=
+  match ps with
+  | [] => []
+  | _ => if (c <=? 0)%Z then ps else [("p"%string, List.concat (map snd ps))]
+  end.
+Definition lay0_out (x : list (E * list (string * list T))) : list (string * list T) :=
+  flat_map (fun it => map (fun kv => ((fst kv ++ "_" ++ ename (fst it) ++ "+")%string, snd kv)) (snd it)) x.
+Definition kv_out (x : list (E * list (string * list T))) : list (string * list T) :=
+  flat_map (fun it => map (fun kv => ((fst kv ++ "+")%string, snd kv)) (snd it)) x.
+Definition lay_outputs (x : list (E * list (string * list T))) (c : Z) : list (string * list T) :=
+  match zlevel c with
+  | O => lay0_out x
+  | 1%nat => regroup (kv_out x)
+  | _ => [("x+"%string, List.concat (map snd (regroup (kv_out x))))]
+  end.
+End Layout.
+
 (* net.states / net.actions / net.disturbances as to_function hands them on: element -> (variable name -> symbols) *)
 Definition dd_of (U : universe) (g : graph) (gr : grp) : list (elem * list (string * list ident)) :=
   map (fun el => (el, map (fun ve => (snd (fst ve), snd ve))
@@ -63,3 +94,26 @@ Definition model_flow_outputs_use_flow_layout : Prop :=
     flow_outputs E nm U P g opts compact
     = bind (origin_flow_entries E nm U P g opts)
            (fun qo => Ok (flow_layout compact (link_flow_entries E nm U g opts) qo)).
+
+(* ---- Engine.to_function itself: for every element / value type, all dictionaries of variables, every integer level, with and
+        without the extra outputs and declared parameters, the regenerated to_function (variables handed on unfiltered) hands
+        cs.Function exactly these (name, value) lists as inputs and as outputs, in these roles ---- *)
+Definition to_function_layout_is_the_regenerated_code : Prop :=
+  forall (E L O T : Type) (ename : E -> string) (lname : L -> string) (oname : O -> string)
+         (links : list L) (origins : list O) (lf : L -> list T) (qf : O -> list T)
+         (x u d nxt : list (E * list (string * list T))) (c : Z) (more_out : bool) (ps : option (list (string * list T))),
+    gen_to_function ename lname oname (@List.concat T) links origins lf qf x u d nxt (fun v => v) (fun v => v) c more_out ps
+    = Some (lay_inputs ename x u d c ++ lay_params (match ps with Some p => p | None => [] end) c,
+            lay_outputs ename nxt c
+            ++ if more_out
+               then flow_layout (zlevel c) (map (fun m => (("q_" ++ lname m)%string, lf m)) links)
+                                           (map (fun o => (("q_o_" ++ oname o)%string, qf o)) origins)
+               else []).
+
+(* and on the model's dictionaries these are ToFunction.v's lists *)
+Definition model_layouts_are_the_generic_ones : Prop :=
+  (forall nm U g (c : Z) (ps : list (string * ident)),
+      lay_inputs (elem_name nm) (dd_of U g GX) (dd_of U g GU) (dd_of U g GD) c
+      ++ lay_params (map (fun p => (fst p, [snd p])) ps) c = tf_inputs nm U g (zlevel c) ps)
+  /\ (forall (A : Type) nm (out : step_out (A:=A)) (c : Z),
+         lay_outputs (elem_name nm) (next_dd out) c = state_outputs nm (zlevel c) out).
